@@ -75,7 +75,7 @@ end example_
 Full statement of compile_correct (DESIGN §C14), kept for reference:
 
     theorem compile_correct (p : Prog) (f : String) (a : List Val) (v : Val) :
-        runFunc fuel p f a = .ok (some v) → ByteVm.run (compile p) (offset f) a = HALT [v]
+        runFunc fuel p f a = .ok [v] → ByteVm.run (compile p) (offset f) a = HALT [v]
       ∧ (runFunc fuel p f a = .panic → ByteVm.run (compile p) (offset f) a = FAULT)
 
 What is proved below is `_partial` in four ways: (1) statements without calls, loops, break/continue and
@@ -103,7 +103,7 @@ theorem compile_stmt_correct_partial (P : Prog) (cx : Ctx) (fuel : Nat)
 theorem compile_func_correct_partial (P : Prog) (tbl : List (String × Nat × Nat)) (d : FuncDecl) (label nl : Nat)
     (C : Code) (pc0 : Nat) (vs rest : List Val) (v : Val) (fuel : Nat)
     (hsimple : Simple d.body) (hlen : d.params.length = vs.length)
-    (hex : exec fuel P { frames := [[]], args := d.params.zip vs } (.block d.body) = .ok (.ret (some v)))
+    (hex : exec fuel P { frames := [[]], args := d.params.zip vs } (.block d.body) = .ok (.ret [v]))
     (hp : Placed C pc0 (compFunc tbl d label nl).1) (hn : (labelsOf C).Nodup) :
     ∃ n, Asm.run C n { pc := pc0, stack := vs ++ rest, locals := [], args := [], frames := [] } = .halt (v :: rest) :=
   func_correct P tbl d label nl C pc0 vs rest v fuel hsimple hlen hex hp hn
@@ -111,7 +111,7 @@ theorem compile_func_correct_partial (P : Prog) (tbl : List (String × Nat × Na
 /-! non-vacuity: `func f(a0 int, a1 bool) int { x := a0 * 2; if a1 && x > 3 { x += 10 } else { return x - 1 }; return x }` -/
 section example_func
 def exD : FuncDecl :=
-  { name := "f", params := ["a0", "a1"], hasResult := true,
+  { name := "f", params := ["a0", "a1"], nres := 1,
     body := .seq (.define "x" (.bin .mul (.var "a0") (.lit 2)))
       (.seq (.ite (.bin .land (.var "a1") (.bin .gt (.var "x") (.lit 3)))
               (.seq (.opAssign "x" .add (.lit 10)) .skip) .block
@@ -120,7 +120,7 @@ def exD : FuncDecl :=
 
 example : Simple exD.body := by simp [exD, Simple, NoCall, Strict]
 example : exec 20 [exD] { frames := [[]], args := exD.params.zip [.int 5, .bool true] } (.block exD.body)
-    = .ok (.ret (some (.int 20))) := by rfl
+    = .ok (.ret [.int 20]) := by rfl
 example : ∃ n, Asm.run (compFunc [] exD 0 1).1 n { pc := 0, stack := [.int 5, .bool true], locals := [], args := [], frames := [] }
     = .halt [.int 20] := by
   have := compile_func_correct_partial [exD] [] exD 0 1 (compFunc [] exD 0 1).1 0 [.int 5, .bool true] [] (.int 20) 20
@@ -188,11 +188,11 @@ theorem compile_prog_correct_partial (P : Prog) (hall : ∀ d ∈ P, Allowed [] 
       func sum(n int) int { s := 0; for i := 0; i < n; i++ { if i == 3 { continue }; if i > 5 { break }; s += fact(i) }; return s } -/
 section example_prog
 def exFact : FuncDecl :=
-  { name := "fact", params := ["n"], hasResult := true,
+  { name := "fact", params := ["n"], nres := 1,
     body := .seq (.ite (.bin .le (.var "n") (.lit 1)) (.seq (.ret (some (.lit 1))) .skip) .none .skip)
       (.seq (.ret (some (.bin .mul (.var "n") (.call1 "fact" (.bin .sub (.var "n") (.lit 1)))))) .skip) }
 def exSum : FuncDecl :=
-  { name := "sum", params := ["n"], hasResult := true,
+  { name := "sum", params := ["n"], nres := 1,
     body := .seq (.define "s" (.lit 0))
       (.seq (.loop (.define "i" (.lit 0)) (some (.bin .lt (.var "i") (.var "n"))) (.inc "i")
               (.seq (.ite (.bin .eq (.var "i") (.lit 3)) (.seq .cont .skip) .none .skip)
@@ -330,10 +330,10 @@ theorem compile_bytes_fault_partial (P : Prog) (hall : ∀ d ∈ P, Allowed [] d
       func f(n int) int { s := 0; for i := 3; i >= 0; i-- { s += quot(n, i) }; return s } -/
 section example_fault
 def exQuot : FuncDecl :=
-  { name := "quot", params := ["a", "b"], hasResult := true,
+  { name := "quot", params := ["a", "b"], nres := 1,
     body := .seq (.ret (some (.bin .div (.var "a") (.var "b")))) .skip }
 def exF : FuncDecl :=
-  { name := "f", params := ["n"], hasResult := true,
+  { name := "f", params := ["n"], nres := 1,
     body := .seq (.define "s" (.lit 0))
       (.seq (.loop (.define "i" (.lit 3)) (some (.bin .ge (.var "i") (.lit 0))) (.dec "i")
               (.seq (.opAssign "s" .add (.call2 "quot" (.var "n") (.var "i"))) .skip))
@@ -356,11 +356,11 @@ example : ∃ off m, labelOffset (compProg exQ) (fnLabel exQ "f") = some off ∧
       func lim(x int) int { if x > 2 { panic(x) }; return x }
       func g(n int) int { s := 0; for i := 0; i < n; i++ { s += lim(i) }; return s } -/
 def exLim : FuncDecl :=
-  { name := "lim", params := ["x"], hasResult := true,
+  { name := "lim", params := ["x"], nres := 1,
     body := .seq (.ite (.bin .gt (.var "x") (.lit 2)) (.seq (.panicS (.var "x")) .skip) .none .skip)
       (.seq (.ret (some (.var "x"))) .skip) }
 def exG : FuncDecl :=
-  { name := "g", params := ["n"], hasResult := true,
+  { name := "g", params := ["n"], nres := 1,
     body := .seq (.define "s" (.lit 0))
       (.seq (.loop (.define "i" (.lit 0)) (some (.bin .lt (.var "i") (.var "n"))) (.inc "i")
               (.seq (.opAssign "s" .add (.call1 "lim" (.var "i"))) .skip))
@@ -519,7 +519,7 @@ def exSwCl : Stmt :=
       (.defaultS (.seq (.ite (.bin .gt (.var "s") (.lit 1000)) (.seq .brk .skip) .none .skip) (.seq .cont .skip))))
 
 def exSw : FuncDecl :=
-  { name := "g", params := ["n"], hasResult := true,
+  { name := "g", params := ["n"], nres := 1,
     body := .seq (.define "s" (.lit 0))
       (.seq (.labeled "L" (.loop (.define "i" (.lit 0)) (some (.bin .lt (.var "i") (.var "n"))) (.inc "i")
               (.seq (.switchS (some (.bin .mod (.var "i") (.lit 4))) true exSwCl)
@@ -547,6 +547,62 @@ example : ∃ off m, labelOffset (compProg [exSw]) (fnLabel [exSw] "g") = some o
   simpa using compile_bytes_correct [exSw] exSw_allowed exSw_small (by decide) "g" [.int 10] [] (.int 555) 200 (by rfl) (by decide)
 end example_switch
 
+/-- (1d) calls for two values: a CALL of a function whose Go evaluation returns `v, w` (`x, y := f(…)`; operands of
+    `return e1, e2` evaluated left to right in the Go semantics, right to left by the compiled code — invisible here
+    because expression evaluation is pure) comes back to the instruction after the CALL with `v` on top of `w` in
+    place of the arguments and the caller's frame as before. -/
+theorem compile_call2_correct_partial (P : Prog) (hall : ∀ d ∈ P, Allowed [] d.body) (fuel : Nat)
+    (f : String) (vs : List Val) (v w : Val) (σ : State) (rest : List Val)
+    (hc : callF2 fuel P f vs = .ok (v, w)) (hs : σ.stack = vs ++ rest)
+    (hf : (compProg P)[σ.pc]? = some (.ins (.call (fnLabel P f)))) (hdep : σ.frames.length + fuel < 1024) :
+    Reach (compProg P) σ { σ with pc := σ.pc + 1, stack := v :: w :: rest } :=
+  (allOK (progCode_of_allowed P hall) hall fuel).call2 f vs v w σ rest hc hs hf hdep
+
+/-- … and FAULTs when that evaluation panics. -/
+theorem compile_call2_fault_partial (P : Prog) (hall : ∀ d ∈ P, Allowed [] d.body) (fuel : Nat)
+    (f : String) (vs : List Val) (σ : State) (rest : List Val)
+    (hc : callF2 fuel P f vs = .panic) (hs : σ.stack = vs ++ rest)
+    (hf : (compProg P)[σ.pc]? = some (.ins (.call (fnLabel P f)))) (hdep : σ.frames.length + fuel < 1024) :
+    Faults (compProg P) σ :=
+  (allFault (progCode_of_allowed P hall) hall fuel).call2 f vs σ rest hc hs hf hdep
+
+/-- the carve-out of return-operands-reversed in `Allowed`: the first operand of `return e1, e2` cannot panic, or the
+    second is `true` / `false`; an expression without calls, `/` and `%` does not panic. -/
+theorem ret2_carve_out (ls : Sigs) (e1 e2 : Expr) :
+    (Allowed ls (.ret2 e1 e2) ↔ (NoPanic e1 ∨ IsBoolLit e2)) ∧
+    (NoPanic e1 → ∀ fuel P env, evalE fuel P env e1 ≠ .panic) :=
+  ⟨by simp [Allowed], fun h fuel P env => noPanic_eval e1 h fuel P env⟩
+
+/-! non-vacuity:
+    `func dm(a, b int) (int, bool) { if b == 0 { return 0, false }; return a / b, true }`
+    `func g(n, k int) int { q, ok := dm(n, k); if ok { return q + 1 }; return -1 }` -/
+section example_two
+def exDm : FuncDecl :=
+  { name := "dm", params := ["a", "b"], nres := 2,
+    body := .seq (.ite (.bin .eq (.var "b") (.lit 0)) (.seq (.ret2 (.lit 0) .ff) .skip) .none .skip)
+      (.seq (.ret2 (.bin .div (.var "a") (.var "b")) .tt) .skip) }
+def exG2 : FuncDecl :=
+  { name := "g", params := ["n", "k"], nres := 1,
+    body := .seq (.define2 "q" "ok" (.call2 "dm" (.var "n") (.var "k")))
+      (.seq (.ite (.var "ok") (.seq (.ret (some (.bin .add (.var "q") (.lit 1)))) .skip) .none .skip)
+      (.seq (.ret (some (.neg (.lit 1)))) .skip)) }
+def exTwo : Prog := [exDm, exG2]
+
+theorem exTwo_allowed : ∀ d ∈ exTwo, Allowed [] d.body := by
+  intro d hd
+  simp only [exTwo, List.mem_cons, List.mem_nil_iff, or_false] at hd
+  rcases hd with rfl | rfl <;> simp [exDm, exG2, Allowed, IsCall2, NoPanic, IsBoolLit]
+example : callF2 50 exTwo "dm" [.int 17, .int 5] = .ok (.int 3, .bool true) := by rfl
+example : callF 50 exTwo "g" [.int 17, .int 5] = .ok (.int 4) ∧ callF 50 exTwo "g" [.int 17, .int 0] = .ok (.int (-1)) := ⟨by rfl, by rfl⟩
+theorem exTwo_small : ∀ d ∈ exTwo, SmallFn d := by
+  intro d hd
+  simp only [exTwo, List.mem_cons, List.mem_nil_iff, or_false] at hd
+  rcases hd with rfl | rfl <;> refine ⟨by decide, by decide, ?_⟩ <;> simp [exDm, exG2, LitsS, LitsE, LitsO]
+example : ∃ off m, labelOffset (compProg exTwo) (fnLabel exTwo "g") = some off ∧
+    Byte.run (compile exTwo) m { pc := off, stack := [.int 17, .int 5], locals := [], args := [], frames := [] } = .halt [.int 4] := by
+  simpa using compile_bytes_correct exTwo exTwo_allowed exTwo_small (by decide) "g" [.int 17, .int 5] [] (.int 4) 50 (by rfl) (by decide)
+end example_two
+
 /-- (1a) `var x T = e`: when `x` does not occur in `e`, the statement compiles to exactly the code and compile-time
     state of `x := e` and has the same Go semantics — the early allocation of the local (codegen.go:738-764) is
     invisible.  This is the precise carve-out of the known finding var-decl-shadow-self: `Allowed` (the hypothesis of
@@ -562,7 +618,7 @@ theorem varDecl_as_define (cx : Ctx) (lp : LoopCtx) (x : String) (b : Bool) (e :
 /-! non-vacuity: a `var` declaration that shadows the argument `x` without reading it in its own initialiser
       func f(x int) int { r := 0; { var y int = x + 1; var x int = y * 2; r = x }; return r + x }     f(3) = 11 -/
 def shadowOK : FuncDecl :=
-  { name := "f", params := ["x"], hasResult := true,
+  { name := "f", params := ["x"], nres := 1,
     body := .seq (.define "r" (.lit 0))
       (.seq (.block (.seq (.varDecl "y" false (some (.bin .add (.var "x") (.lit 1))))
                     (.seq (.varDecl "x" false (some (.bin .mul (.var "y") (.lit 2))))
@@ -607,14 +663,14 @@ example : evalW ovEnv (.bin .add (.var "a") (.lit 5)) = some (.int (2 ^ 62 + 5))
     `func f(x int) int { r := 0; { var x int = x + 1; r = x }; return r + x }` returns 2x+1 in Go, while the
     compiled code reads the freshly allocated, still Null slot of the new x and FAULTs. -/
 def shadowD : FuncDecl :=
-  { name := "f", params := ["x"], hasResult := true,
+  { name := "f", params := ["x"], nres := 1,
     body := .seq (.define "r" (.lit 0))
       (.seq (.block (.seq (.varDecl "x" false (some (.bin .add (.var "x") (.lit 1))))
                     (.seq (.assign "r" (.var "x")) .skip)))
       (.seq (.ret (some (.bin .add (.var "r") (.var "x")))) .skip)) }
 
 theorem varDecl_shadow_witness :
-    runFunc 20 [shadowD] "f" [.int 3] = .ok (some (.int 7)) ∧
+    runFunc 20 [shadowD] "f" [.int 3] = .ok [.int 7] ∧
     (∃ n, Asm.run (compProg [shadowD]) n { pc := 0, stack := [.int 3], locals := [], args := [], frames := [] } = .fault) := by
   refine ⟨by rfl, 12, by rfl⟩
 
